@@ -163,6 +163,8 @@ class Builder:
             return obj
         if t == 'tuple':
             return self._reg(r, tuple(self.value(x) for x in v))
+        if t == 'mytuple':
+            return self._reg(r, collab.MyTuple(self.value(x) for x in v))
         if t == 'set':
             return self._reg(r, set(self.value(x) for x in v))
         if t == 'frozenset':
